@@ -176,6 +176,19 @@ pub fn run(args: &Args, out: &mut Out) {
                 _ => src.push_str(&format!("{}:{}(x)\n", path[..depth.max(2) - 1].join("."), path[depth - 1])),
             }
         }
+        // … and every key the library defines (wildcard segments instantiated), read, called and assigned in turn: whatever
+        // kind of entry sits at a key — removed ones at the top level included — some statement goes through it
+        for (j, key) in loaded.globals.keys().take(12).enumerate() {
+            let p = key.replace('*', "w");
+            if p.is_empty() || !p.split('.').all(|seg| seg.chars().all(|c| c.is_ascii_alphanumeric() || c == '_') && !seg.is_empty() && !seg.chars().next().unwrap().is_ascii_digit()) {
+                continue;
+            }
+            match (j + i) % 3 {
+                0 => src.push_str(&format!("local _k{j} = {p}\n")),
+                1 => src.push_str(&format!("{p}(1)\n")),
+                _ => src.push_str(&format!("{p} = nil\n")),
+            }
+        }
         let ast = match full_moon::parse(&src) {
             Ok(a) => a,
             Err(_) => continue,
@@ -217,5 +230,44 @@ pub fn run(args: &Args, out: &mut Out) {
             Err(_) => atom("panic"),
         };
         out.case("C11.try_instead", &list(vec![list(d.replace.iter().map(st).collect()), list(params.iter().map(st).collect())]), &imp);
+    }
+
+    // (d) RobloxClass::has_property / has_event on generated class tables — chains, dangling superclasses and cycles
+    // (model: Selene.Std.RobloxClass). A table with a cycle made the pre-0720cb5 code overflow its stack, which no
+    // catch_unwind can intercept: such tables also go through the real binary in the check's hostile-library stage.
+    {
+        use selene_lib::standard_library::RobloxClass;
+        use std::collections::BTreeMap;
+        let names = ["A", "B", "C", "D", "E"];
+        let words = ["Size", "Name", "Text", "Changed", "Touched"];
+        for _ in 0..args.n {
+            let k = 1 + rng.below(5);
+            let mut classes: BTreeMap<String, RobloxClass> = BTreeMap::new();
+            for n in names.iter().take(k) {
+                let sup = if rng.chance(1, 5) { "Instance".to_owned() } else { (*rng.pick(&names)).to_owned() };
+                let events: Vec<String> = words.iter().filter(|_| rng.chance(1, 4)).map(|w| (*w).to_owned()).collect();
+                let properties: Vec<String> = words.iter().filter(|_| rng.chance(1, 4)).map(|w| (*w).to_owned()).collect();
+                classes.insert((*n).to_owned(), RobloxClass { superclass: sup, events, properties });
+            }
+            let start = names[rng.below(k)];
+            let queries: Vec<(bool, &str)> = (0..4).map(|_| (rng.chance(1, 2), *rng.pick(&words))).collect();
+            let res = std::panic::catch_unwind(std::panic::AssertUnwindSafe(|| {
+                let c = &classes[start];
+                queries.iter().map(|(is_prop, w)| if *is_prop { c.has_property(&classes, w) } else { c.has_event(&classes, w) }).collect::<Vec<bool>>()
+            }));
+            let imp = match res {
+                Ok(v) => list(v.into_iter().map(boolean).collect()),
+                Err(_) => atom("panic"),
+            };
+            out.case(
+                "C11.class",
+                &list(vec![
+                    list(classes.iter().map(|(n, c)| list(vec![st(n), st(&c.superclass), list(c.events.iter().map(st).collect()), list(c.properties.iter().map(st).collect())])).collect()),
+                    st(start),
+                    list(queries.iter().map(|(p, w)| list(vec![atom(if *p { "p" } else { "e" }), st(*w)])).collect()),
+                ]),
+                &imp,
+            );
+        }
     }
 }
